@@ -113,8 +113,66 @@ enum InputJ {
 // JSON -> real types
 // ---------------------------------------------------------------------------------------------
 
-fn time(ms: i64) -> DateTime<Utc> {
-    Utc.timestamp_millis_opt(ms).unwrap()
+/// exchange times travel as integer NANOSECONDS since the Unix epoch (chrono's own resolution)
+fn time(ns: i64) -> DateTime<Utc> {
+    DateTime::from_timestamp_nanos(ns)
+}
+fn nanos(t: &DateTime<Utc>) -> i64 {
+    t.timestamp_nanos_opt().expect("time within the i64 nanosecond range")
+}
+
+const MS: i64 = 1_000_000;
+const Y2023: i64 = 1_700_000_000_000_000_000;
+
+/// Generators think in small abstract ticks; a case is then mapped to real times
+/// `base + tick * unit` (order preserving). The palette covers ticks 1 ns apart (from the epoch,
+/// in 2023, far in the future), ticks straddling a millisecond boundary (...999_999 ns vs
+/// ...000_000 ns of the next ms), microseconds, just under a millisecond, milliseconds,
+/// seconds, and the far past.
+fn time_palette(r: &mut Rng) -> (i64, i64) {
+    match r.below(12) {
+        0 => (0, 1),
+        1 => (Y2023 + 123 * MS - 2, 1),
+        2 => (Y2023 + 123 * MS - 15, 1),
+        3 => (Y2023 + 77 * MS - 40, 7),
+        4 => (Y2023, 1_000),
+        5 => (Y2023 + 5, 999_999),
+        6 => (Y2023, MS),
+        7 => (Y2023, 1_000 * MS),
+        8 => (31_536_000 * 1_000_000_000, 333),
+        9 => (7_258_118_400 * 1_000_000_000, 1),
+        10 => (Y2023 + 999_000, 250),
+        _ => (Y2023, MS),
+    }
+}
+/// the scales every table case is run at: sub-millisecond apart, across a millisecond boundary,
+/// a millisecond apart
+const TABLE_SCALES: [(i64, i64); 3] = [(0, 1), (Y2023 + 123 * MS - 2, 1), (Y2023, MS)];
+
+/// map every exchange time ("t", "lut") of a JSON input to `base + t * unit`
+fn rescale_json(v: &mut serde_json::Value, base: i64, unit: i64) {
+    match v {
+        serde_json::Value::Object(m) => {
+            for (k, x) in m.iter_mut() {
+                if (k == "t" || k == "lut") && x.is_i64() {
+                    *x = serde_json::Value::from(base + x.as_i64().unwrap() * unit);
+                } else {
+                    rescale_json(x, base, unit);
+                }
+            }
+        }
+        serde_json::Value::Array(a) => {
+            for x in a.iter_mut() {
+                rescale_json(x, base, unit);
+            }
+        }
+        _ => {}
+    }
+}
+fn rescaled<T: Serialize + serde::de::DeserializeOwned>(input: &T, scale: (i64, i64)) -> T {
+    let mut v = serde_json::to_value(input).unwrap();
+    rescale_json(&mut v, scale.0, scale.1);
+    serde_json::from_value(v).unwrap()
 }
 fn dec(s: &str) -> Decimal {
     s.parse().expect("decimal")
@@ -298,7 +356,7 @@ fn coq_open(m: &Open) -> String {
     format!(
         "(mkM {} {} {})",
         id_num(m.id.0.as_str()),
-        zz(m.time_exchange.timestamp_millis() as i128),
+        zz(nanos(&m.time_exchange) as i128),
         dz(m.filled_quantity)
     )
 }
@@ -318,7 +376,7 @@ fn coq_state(s: &OrderState<AssetIndex, InstrumentIndex>) -> String {
         OrderState::Inactive(InactiveOrderState::Cancelled(c)) => format!(
             "(SI (Cancelled {} {}))",
             id_num(c.id.0.as_str()),
-            zz(c.time_exchange.timestamp_millis() as i128)
+            zz(nanos(&c.time_exchange) as i128)
         ),
         OrderState::Inactive(InactiveOrderState::FullyFilled) => "(SI FullyFilled)".into(),
         OrderState::Inactive(InactiveOrderState::OpenFailed(_)) => "(SI OpenFailed)".into(),
@@ -412,7 +470,7 @@ fn cmp_class(cur: Option<&ActiveOrder>, t: i64) -> &'static str {
     match cur.and_then(|o| o.state.open_meta()) {
         None => "na",
         Some(m) => {
-            let h = m.time_exchange.timestamp_millis();
+            let h = nanos(&m.time_exchange);
             if t < h {
                 "older"
             } else if t == h {
@@ -867,7 +925,7 @@ enum When {
 fn pick_time(r: &mut Rng, cur: Option<&ActiveOrder>, now: &mut i64, w: When) -> i64 {
     let held = cur
         .and_then(|o| o.state.open_meta())
-        .map(|m| m.time_exchange.timestamp_millis());
+        .map(|m| nanos(&m.time_exchange));
     match (w, held) {
         (When::Tie, Some(h)) => h,
         (When::Older, Some(h)) => h - 1 - r.below(3) as i64,
@@ -1173,7 +1231,9 @@ fn main() {
             let thorough = args.tier == "thorough";
             let mut r = Rng::new(args.seed);
             for input in gen_table() {
-                emit(&mut em, "table", &input);
+                for scale in TABLE_SCALES {
+                    emit(&mut em, "table", &rescaled(&input, scale));
+                }
             }
             let (n_rand, n_eng, n_adv, max_len) = if thorough {
                 (4000, 2000, 3000, 60)
@@ -1185,12 +1245,14 @@ fn main() {
                 // thorough: every 25th history is a long one
                 let ml = if thorough && j % 25 == 0 { 200 } else { max_len };
                 let input = gen_orders_history(&mut rr, ml, false);
-                emit(&mut em, "random", &input);
+                let scale = time_palette(&mut rr);
+                emit(&mut em, "random", &rescaled(&input, scale));
             }
             for _ in 0..n_eng {
                 let mut rr = r.fork();
                 let input = gen_engine_history(&mut rr, max_len, false);
-                emit(&mut em, "random", &input);
+                let scale = time_palette(&mut rr);
+                emit(&mut em, "random", &rescaled(&input, scale));
             }
             for j in 0..n_adv {
                 let mut rr = r.fork();
@@ -1199,7 +1261,8 @@ fn main() {
                 } else {
                     gen_orders_history(&mut rr, max_len, true)
                 };
-                emit(&mut em, "adversarial", &input);
+                let scale = time_palette(&mut rr);
+                emit(&mut em, "adversarial", &rescaled(&input, scale));
             }
         }
         "exec" => {
